@@ -120,7 +120,9 @@ def run_tlc(module, cfg_text, name=None, workers=None, simulate=None, depth=None
            "-XX:CICompilerCount=2", "-XX:TieredStopAtLevel=1" if simulate is None and False else "-XX:+TieredCompilation",
            # the queue of unexplored states stays in memory: the disk-backed default fails in this TLC build once it starts writing
            # ("when writing the disk (StatePoolWriter.run): ... this.elems is null") on the larger generator runs
-           "-Dtlc2.tool.queue.IStateQueue=MemStateQueue", "-cp", JAR, "tlc2.TLC",
+           "-Dtlc2.tool.queue.IStateQueue=MemStateQueue",
+           "-Djava.io.tmpdir=" + d,          # TLC leaves an empty tlc-<n> directory per run in the JVM's temporary directory
+           "-cp", JAR, "tlc2.TLC",
            "-metadir", meta, "-config", cfg, "-noGenerateSpecTE"]
     if workers is None:
         workers = NCPU
